@@ -90,3 +90,19 @@ def arena_area(cfg):
     if mode is None:
         return "dram" if "u65" in cfg["acc"] else "sram"
     return "dram" if mode[1].startswith("Dedicated_Sram") else "sram"
+
+
+def pack_model(model_bytes):
+    """model bytes for a witness (zlib + base64), or None when too large to carry"""
+    import base64
+    import zlib
+
+    z = base64.b64encode(zlib.compress(model_bytes, 9)).decode()
+    return z if len(z) < 400000 else None
+
+
+def unpack_model(z):
+    import base64
+    import zlib
+
+    return zlib.decompress(base64.b64decode(z))
